@@ -1,6 +1,499 @@
 package main
 
-import "bufio"
+// C13 (a URL object stays coherent under every setter / searchParams history) and
+// C14 (new URL(reference, base) is RFC 3986 / WHATWG resolution): generators and the JS side of the line protocol.
 
-func runC13(e *env, w *bufio.Writer, n int, corpus string) {}
-func runC14(e *env, w *bufio.Writer, n int, corpus string) {}
+import (
+	"bufio"
+	"encoding/json"
+	"fmt"
+	"strings"
+
+	"github.com/dop251/goja"
+)
+
+const preludeURL = `
+function __thr(e) {
+  var m = (e && e.message !== undefined) ? String(e.message) : String(e);
+  var known = {"Invalid URL":1, "Invalid base URL":1, "URL is not absolute":1, "Invalid hostname":1};
+  if (!known[m]) m = "other:" + hx(m);
+  return "T:" + m.replace(/ /g, "_");
+}
+function __obsU(u, sp, order) {
+  var g = {};
+  var readers = {
+    href: function () { return u.href; }, ts: function () { return u.toString(); },
+    tj: function () { return u.toJSON(); }, search: function () { return u.search; }
+  };
+  var ord = [["href", "ts", "tj", "search"], ["ts", "href", "search", "tj"], ["search", "tj", "ts", "href"],
+             ["tj", "search", "href", "ts"]][order % 4];
+  function rest() {
+    g.protocol = u.protocol; g.username = u.username; g.password = u.password; g.host = u.host;
+    g.hostname = u.hostname; g.port = u.port; g.pathname = u.pathname; g.hash = u.hash; g.origin = u.origin;
+  }
+  if (order & 4) rest();
+  ord.forEach(function (k) { g[k] = readers[k](); });
+  if (!(order & 4)) rest();
+  var re;
+  try { re = hx(new URL(g.href).href); } catch (e) { re = "THROW"; }
+  var spS = "~";
+  if (sp) {
+    var e = Array.from(sp);
+    spS = String(e.length);
+    e.forEach(function (x) { spS += "," + hx(x[0]) + "," + hx(x[1]); });
+  }
+  return ["O", hx(g.href), hx(g.ts), hx(g.tj), hx(g.protocol), hx(g.username), hx(g.password), hx(g.host),
+          hx(g.hostname), hx(g.port), hx(g.pathname), hx(g.search), hx(g.hash), hx(g.origin), spS, re].join(" ");
+}
+function __runC13(ctor, ops) {
+  var out = [];
+  var u, sp = null;
+  try { u = new URL(ctor); } catch (e) { return __thr(e); }
+  out.push(__obsU(u, sp, 0));
+  ops.forEach(function (op) {
+    var thr = null;
+    try {
+      switch (op[0]) {
+        case "S": u[op[1]] = op[2]; break;
+        case "P": u.port = op[1]; break;
+        case "G": sp = u.searchParams; break;
+        case "A": sp.append(op[1], op[2]); break;
+        case "D": sp.delete(op[1]); break;
+        case "D2": sp.delete(op[1], op[2]); break;
+        case "E": sp.set(op[1], op[2]); break;
+        case "O": sp.sort(); break;
+      }
+    } catch (e) { thr = __thr(e); }
+    var obsflag = op[op.length - 2], order = op[op.length - 1];
+    var r = [];
+    if (thr) r.push(thr);
+    if (obsflag) r.push(__obsU(u, sp, order));
+    out.push(r.length ? r.join(" ") : "-");
+  });
+  return out.join(" ; ");
+}
+function __runC14(ref, base) {
+  var u;
+  try { u = base === null ? new URL(ref) : new URL(ref, base); } catch (e) { return __thr(e); }
+  return ["O", hx(u.href), hx(u.protocol), hx(u.username), hx(u.password), hx(u.host), hx(u.hostname), hx(u.port),
+          hx(u.pathname), hx(u.search), hx(u.hash)].join(" ");
+}
+`
+
+type urlEnv struct {
+	*env
+	runC13 goja.Callable
+	runC14 goja.Callable
+}
+
+func newURLEnv(e *env) *urlEnv {
+	if _, err := e.vm.RunString(preludeURL); err != nil {
+		panic(err)
+	}
+	u := &urlEnv{env: e}
+	u.runC13, _ = goja.AssertFunction(e.vm.Get("__runC13"))
+	u.runC14, _ = goja.AssertFunction(e.vm.Get("__runC14"))
+	return u
+}
+
+func (e *urlEnv) pick(xs []string) string { return xs[e.rng.Intn(len(xs))] }
+
+// ---------------------------------------------------------------------------------------------------------------
+// the grammar of C14
+// ---------------------------------------------------------------------------------------------------------------
+
+var (
+	gSchemes   = []string{"http", "https", "ws", "wss", "ftp", "HTTP", "hTTps", "Ws", "FTP", "wsS"}
+	gUserinfos = []string{"", "", "", "user", "user:pw", "u%40x:p%3Aq", "a.b-c_d~", "u!$&'()*+,;=", "U:", "%C3%A9"}
+	gHosts     = []string{"example.com", "EXAMPLE.Org", "a.b.c", "h", "é.com", "日本.jp", "bücher.de", "sub.例え.jp", "[::1]",
+		"[2001:db8::A]", "x-y.z", "a1.b2", "ρ.gr", "привет.рф", "😀.la", "Straße.de"}
+	gSegs = []string{"a", "b", "c", "d;p", "e.f", "bb", "c.d", "e;x=1", "f,g", "~h", "i'j", "k(l)", "m*n", "%41", "%C3%A9", "é",
+		"日本", "%7e", "a:b", "@x", "$", "!", "q\"r", "s<t>", "u{v}", "w|x", "y^z", "a`b", "...", ".a", "a.", "..b", "%e2%82%ac", "%3F", "%23", "%25"}
+	gQueries = []string{"q", "a=1&b=2", "x=é", "p=%20", "a/b?c", "k=\"v\"", "a'b", "x=<y>", "", "a=%41", "日本=語", "a+b", "x={y}|^`", "@:", "%26=%3D"}
+	gFrags   = []string{"frag", "é", "a/b?c", "%41", "x{y}", "a`b", "", "top", "a\"b", "<x>", "日本", "!$&'()*+,;=:@", "%25"}
+)
+
+func (e *urlEnv) gPort(scheme string) string {
+	def := map[string]string{"http": "80", "https": "443", "ws": "80", "wss": "443", "ftp": "21"}[strings.ToLower(scheme)]
+	switch e.rng.Intn(10) {
+	case 0, 1, 2, 3, 4:
+		return ""
+	case 5, 6:
+		return ":" + def
+	default:
+		return ":" + e.pick([]string{"8080", "1", "65535", "443", "80", "21", "8443", "0", "3000"})
+	}
+}
+
+func (e *urlEnv) gAuthority(scheme string) string {
+	ui := e.pick(gUserinfos)
+	if ui != "" {
+		ui += "@"
+	}
+	return ui + e.pick(gHosts) + e.gPort(scheme)
+}
+
+// gPath: absolute ("/"-rooted) or relative; depth 0..5; dot segments; optional trailing slash
+func (e *urlEnv) gPath(absolute bool, allowEmpty bool) string {
+	n := e.rng.Intn(6)
+	if n == 0 {
+		if absolute {
+			if allowEmpty && e.rng.Chance(40) {
+				return ""
+			}
+			return "/"
+		}
+		return ""
+	}
+	var segs []string
+	for i := 0; i < n; i++ {
+		switch x := e.rng.Intn(100); {
+		case x < 18:
+			segs = append(segs, "..")
+		case x < 28:
+			segs = append(segs, ".")
+		case x < 70:
+			segs = append(segs, gSegs[e.rng.Intn(8)])
+		default:
+			segs = append(segs, e.pick(gSegs))
+		}
+	}
+	if !absolute && strings.Contains(segs[0], ":") {
+		segs[0] = "s"
+	}
+	p := strings.Join(segs, "/")
+	if absolute {
+		p = "/" + p
+	}
+	if e.rng.Chance(35) {
+		p += "/"
+	}
+	return p
+}
+
+func (e *urlEnv) gQF() string {
+	s := ""
+	if e.rng.Chance(45) {
+		s += "?" + e.pick(gQueries)
+	}
+	if e.rng.Chance(40) {
+		s += "#" + e.pick(gFrags)
+	}
+	return s
+}
+
+func (e *urlEnv) gAbsolute() string {
+	sc := e.pick(gSchemes)
+	return sc + "://" + e.gAuthority(sc) + e.gPath(true, true) + e.gQF()
+}
+
+func (e *urlEnv) gReference() (string, string) {
+	switch x := e.rng.Intn(100); {
+	case x < 10:
+		return e.gAbsolute(), "absolute"
+	case x < 20:
+		return "//" + e.gAuthority("http") + e.gPath(true, true) + e.gQF(), "scheme-relative"
+	case x < 38:
+		return e.gPath(true, false) + e.gQF(), "path-absolute"
+	case x < 78:
+		p := e.gPath(false, false)
+		if p == "" {
+			p = e.pick([]string{"x", ".", "..", "./", "../", "../..", "../../..", "./x", "x/"})
+		}
+		return p + e.gQF(), "path-relative"
+	case x < 86:
+		return "?" + e.pick(gQueries) + func() string {
+			if e.rng.Chance(30) {
+				return "#" + e.pick(gFrags)
+			}
+			return ""
+		}(), "query-only"
+	case x < 94:
+		return "#" + e.pick(gFrags), "fragment-only"
+	default:
+		return "", "empty"
+	}
+}
+
+// strings outside the grammar: compared model-vs-implementation only
+var hostilePieces = []string{"http:", "https:", "//", "/", "\\", " ", "%2F", "%2e", "%2E%2E", "%zz", "%", "mailto:", "file:", "foo:", "a", "b",
+	"..", ".", "@", ":", "::", "?", "#", "##", "[", "]", "[::1]", "127.0.0.1", "0x7f.1", "1", ":80", ":99999", ":00080", ":0", ":abc", "xn--caf-dma", "xn--é", "É", "Ü.de",
+	"\t", "\n", "h.com", "u:p@", "*", "//a//b", "a//b", "x y", "%41", "é", "\x7f", " ", "👍", "+", "&", "=", "data:text/plain,x", "javascript:alert(1)", "h", "h.", ".h", "a..b", "-", "_"}
+
+func (e *urlEnv) hostile() string {
+	n := 1 + e.rng.Intn(6)
+	var sb strings.Builder
+	for i := 0; i < n; i++ {
+		sb.WriteString(e.pick(hostilePieces))
+	}
+	return sb.String()
+}
+
+func (e *urlEnv) otherScheme() string {
+	return e.pick([]string{"foo://h/p", "foo://h:81/p/q?x#y", "mailto:x@y.z", "file:///a/b", "file://host/a", "data:text/plain,hi", "foo:/a/b",
+		"foo:a/b", "FOO://User@H/P", "x+y-z.1://h", "git+ssh://u@h:22/r.git", "urn:isbn:123", "foo://h", "foo://:81/x", "http:///x", "tel:+1-2"})
+}
+
+type c14case struct {
+	Ref  string  `json:"ref"`
+	Base *string `json:"base"`
+}
+
+func (e *urlEnv) genC14() c14case {
+	switch x := e.rng.Intn(100); {
+	case x < 62:
+		ref, kind := e.gReference()
+		b := e.gAbsolute()
+		e.st.Hit("c14:ref:" + kind)
+		return c14case{ref, &b}
+	case x < 74:
+		e.st.Hit("c14:one-arg:absolute")
+		return c14case{e.gAbsolute(), nil}
+	case x < 80:
+		e.st.Hit("c14:one-arg:no-scheme")
+		ref, _ := e.gReference()
+		return c14case{ref, nil}
+	case x < 86:
+		e.st.Hit("c14:hostile-ref")
+		b := e.gAbsolute()
+		return c14case{e.hostile(), &b}
+	case x < 92:
+		e.st.Hit("c14:hostile-base")
+		ref, _ := e.gReference()
+		b := e.hostile()
+		if e.rng.Chance(40) {
+			b = e.otherScheme()
+		}
+		return c14case{ref, &b}
+	default:
+		e.st.Hit("c14:hostile-one-arg")
+		if e.rng.Chance(30) {
+			return c14case{e.otherScheme(), nil}
+		}
+		return c14case{e.hostile(), nil}
+	}
+}
+
+func (e *urlEnv) execC14(c c14case) (out string) {
+	defer func() {
+		if r := recover(); r != nil {
+			out = strings.ReplaceAll(fmt.Sprintf("PANIC %v", r), "\n", " ")
+		}
+	}()
+	var base goja.Value = goja.Null()
+	if c.Base != nil {
+		base = e.vm.ToValue(*c.Base)
+	}
+	res, err := e.runC14(goja.Undefined(), e.vm.ToValue(c.Ref), base)
+	if err != nil {
+		return "THROW " + strings.ReplaceAll(err.Error(), "\n", " ")
+	}
+	return res.String()
+}
+
+func (e *urlEnv) emitC14(w *bufio.Writer, c c14case) {
+	jb, _ := json.Marshal(c)
+	fmt.Fprintf(w, "#C14JSON %s\n", jb)
+	b := "~"
+	if c.Base != nil {
+		b = hs(*c.Base)
+	}
+	fmt.Fprintf(w, "C14 %s %s => %s\n", hs(c.Ref), b, e.execC14(c))
+}
+
+func runC14(e0 *env, w *bufio.Writer, n int, corpus string) {
+	e := newURLEnv(e0)
+	readCorpus(corpus, func(line string) {
+		if strings.HasPrefix(line, "C14JSON ") {
+			var c c14case
+			if json.Unmarshal([]byte(line[8:]), &c) == nil {
+				e.st.Hit("source:corpus")
+				e.emitC14(w, c)
+			}
+		}
+	})
+	for i := 0; i < n; i++ {
+		e.emitC14(w, e.genC14())
+	}
+}
+
+// ---------------------------------------------------------------------------------------------------------------
+// C13
+// ---------------------------------------------------------------------------------------------------------------
+
+var setterValues = map[string][]string{
+	"protocol": {"https", "http:", "ws", "wss:", "ftp", "file", "foo", "FOO:", "", ":", "h ttp", "1a", "a+b", "javascript:alert(1)", "é", "HTTPS", "http", "ftp:", "wss", "bar:baz"},
+	"username": {"", "u", "a b", "a:b", "a@b", "é", "%41", "/", "?#", "user", "U", "a%zz"},
+	"password": {"", "p", "a b", "a:b", "a@b", "é", "%41", "/", "?#", "pw"},
+	"host": {"h.com", "H.COM:8080", "h.com:80", "h.com:443", "h.com:21", "h.com:", "x/y", "a@b", "", ":81", "h:99999", "h:0", "h:00080", "é.com", "[::1]", "[::1]:81", "[::1",
+		"a b", "a?b", "a#b", "h.com:81:82", "xn--é", "a..b", "h.com:abc", "[::A]:443", "Ü.de", "h.com:65535", "h.com:65536", "a:b", "%41.com", "a%2Fb", "h::", "h:::"},
+	"hostname": {"h.com", "H", "", "a:b", "x/y", "é.de", "[::2]", "a@b", "a b", "g.org", "xn--é", "a?b", "a#b", "%41", "Ü.de"},
+	"port":     {"", "80", "443", "21", "8080", "0", "65535", "65536", "99999", "8080abc", "abc", " 81", "-1", "+5", "1e3", "81", "00080", "080", "8 0"},
+	"pathname": {"", "/", "a", "/a/b", "a b", "/a/../b/", "/a/./b/.", "..", "a?b", "a#b", "é", "%41", "%zz", "//x", "/a//b", "\\x", "/x/", "/a/b/..", "a/", "/%2e%2e/x", "/;p", "/a:b", "*"},
+	"search":   {"", "?", "a=1", "?a=1", "??a=1", "a=1&b=2", "a b", "é=ü", "#x", "a=1#f", "%zz", "a='b'", "&&", "=", "a=%41", "?x=y&x=z", "a+b=c", "?%26=%3D", "a=\"b\"", "a=<b>"},
+	"hash":     {"", "#", "x", "#x", "##x", "a b", "é", "%41", "%zz", "a#b", "?q", "#a/b", "a\"b", "a`b", "<x>"},
+}
+
+var portInts = []int64{80, 443, 81, -1, 0, 65535, 65536, 70000, 21, 8080, 1 << 40}
+
+type c13case struct {
+	Ctor string          `json:"ctor"`
+	Ops  [][]interface{} `json:"ops"`
+}
+
+func (e *urlEnv) genC13() c13case {
+	var c c13case
+	switch x := e.rng.Intn(100); {
+	case x < 70:
+		c.Ctor = e.gAbsolute()
+		e.st.Hit("c13:ctor:grammar")
+	case x < 85:
+		c.Ctor = e.otherScheme()
+		e.st.Hit("c13:ctor:other-scheme")
+	default:
+		c.Ctor = e.hostile()
+		e.st.Hit("c13:ctor:hostile")
+	}
+	props := []string{"href", "protocol", "username", "password", "host", "hostname", "port", "pathname", "search", "hash"}
+	nops := e.rng.Intn(9)
+	held := false
+	for i := 0; i < nops; i++ {
+		obs, order := 1, e.rng.Intn(8)
+		if e.rng.Chance(35) {
+			obs = 0
+		}
+		var op []interface{}
+		x := e.rng.Intn(100)
+		if x >= 62 && x < 92 && !held {
+			x = 95 // an operation on searchParams needs the object first
+		}
+		switch {
+		case x < 62:
+			p := props[e.rng.Intn(len(props))]
+			if e.rng.Chance(25) {
+				p = []string{"search", "href", "host", "port", "protocol"}[e.rng.Intn(5)]
+			}
+			switch {
+			case p == "href":
+				v := e.gAbsolute()
+				if e.rng.Chance(25) {
+					v = e.hostile()
+				} else if e.rng.Chance(15) {
+					v = e.otherScheme()
+				}
+				op = []interface{}{"S", p, v}
+			case p == "port" && e.rng.Chance(35):
+				op = []interface{}{"P", portInts[e.rng.Intn(len(portInts))]}
+			default:
+				op = []interface{}{"S", p, e.pick(setterValues[p])}
+			}
+			e.st.Hit("c13:op:set-" + p)
+		case x < 72:
+			op = []interface{}{"A", e.word(), e.word()}
+		case x < 78:
+			op = []interface{}{"D", e.word()}
+		case x < 81:
+			op = []interface{}{"D2", e.word(), e.word()}
+		case x < 88:
+			op = []interface{}{"E", e.word(), e.word()}
+		case x < 92:
+			op = []interface{}{"O"}
+		default:
+			op = []interface{}{"G"}
+			held = true
+		}
+		if op[0].(string) != "S" && op[0].(string) != "P" {
+			e.st.Hit("c13:op:" + op[0].(string))
+		}
+		op = append(op, obs, order)
+		c.Ops = append(c.Ops, op)
+	}
+	return c
+}
+
+func lineOfC13(c c13case) string {
+	t := []string{"C13", hs(c.Ctor)}
+	for _, op := range c.Ops {
+		t = append(t, ";")
+		name := op[0].(string)
+		t = append(t, name)
+		args := op[1 : len(op)-2]
+		for i, a := range args {
+			switch {
+			case name == "S" && i == 0:
+				t = append(t, a.(string))
+			case name == "P":
+				t = append(t, fmt.Sprint(toInt64(a)))
+			default:
+				t = append(t, hs(a.(string)))
+			}
+		}
+		t = append(t, fmt.Sprint(toInt(op[len(op)-2])))
+	}
+	return strings.Join(t, " ")
+}
+
+func toInt64(x interface{}) int64 {
+	switch v := x.(type) {
+	case int64:
+		return v
+	case int:
+		return int64(v)
+	case float64:
+		return int64(v)
+	}
+	return 0
+}
+
+func (e *urlEnv) execC13(c c13case) (out string) {
+	defer func() {
+		if r := recover(); r != nil {
+			out = strings.ReplaceAll(fmt.Sprintf("PANIC %v", r), "\n", " ")
+		}
+	}()
+	// JSON round trips turn integers into float64: hand integral port values to JS as integers
+	ops := make([]interface{}, len(c.Ops))
+	for i, op := range c.Ops {
+		o := make([]interface{}, len(op))
+		copy(o, op)
+		if o[0].(string) == "P" {
+			o[1] = toInt64(o[1])
+		}
+		o[len(o)-1] = toInt(o[len(o)-1])
+		o[len(o)-2] = toInt(o[len(o)-2])
+		ops[i] = o
+	}
+	res, err := e.runC13(goja.Undefined(), e.vm.ToValue(c.Ctor), e.vm.ToValue(ops))
+	if err != nil {
+		return "THROW " + strings.ReplaceAll(err.Error(), "\n", " ")
+	}
+	return res.String()
+}
+
+func (e *urlEnv) emitC13(w *bufio.Writer, c c13case) {
+	jb, _ := json.Marshal(c)
+	fmt.Fprintf(w, "#C13JSON %s\n", jb)
+	out := e.execC13(c)
+	if strings.HasPrefix(out, "T:") && !strings.Contains(out, " ; ") {
+		// the constructor threw: there is no object to operate on
+		fmt.Fprintf(w, "C13 %s => %s\n", hs(c.Ctor), out)
+		return
+	}
+	fmt.Fprintf(w, "%s => %s\n", lineOfC13(c), out)
+}
+
+func runC13(e0 *env, w *bufio.Writer, n int, corpus string) {
+	e := newURLEnv(e0)
+	readCorpus(corpus, func(line string) {
+		if strings.HasPrefix(line, "C13JSON ") {
+			var c c13case
+			if json.Unmarshal([]byte(line[8:]), &c) == nil {
+				e.st.Hit("source:corpus")
+				e.emitC13(w, c)
+			}
+		}
+	})
+	for i := 0; i < n; i++ {
+		e.emitC13(w, e.genC13())
+	}
+}
